@@ -361,7 +361,7 @@ func (e *Engine) prepareReply(u *UpRec) {
 		} else {
 			body = encodeBody(enc, raw)
 		}
-		hdr.Set("Content-Encoding", enc)
+		hdr.Set("Content-Encoding", wireEnc(enc))
 	}
 	if call.Method == "HEAD" {
 		body = nil
